@@ -312,8 +312,11 @@ theorem CidInv.step (st : Core) (f : Frame) (fs : List Frame) (h : CidInv st (f 
   | run c ow late =>
     have hl : logCount cid (st.log ++ [Ev.c c.tag c.cid ow late]) = logCount cid st.log + frCount cid [Frame.run c ow late] := by
       rw [logCount_append]; simp [logCount, evCid, frCount, frameCid]
-    have hcf : frCount cid (closureFrames c) = 0 := by
-      unfold closureFrames; split <;> rfl
+    have hcf : frCount cid (closureFrames st.cur c) = 0 := by
+      unfold closureFrames
+      split
+      · split <;> rfl
+      · rfl
     by_cases hn : c.nested = true
     · obtain ⟨d, h2, hd1, hd2⟩ := regCleanup_count (logEv st (Ev.c c.tag c.cid ow late)) (c.tag + 100) false none cid
       simp only [stepFrame, hn, if_true, newStored_log, newStored_nextCid, newStored_count, regCleanup_log,
